@@ -354,7 +354,8 @@ def r3(ctx):
     okf = False
     if okw:
         flag = wl[0].test.id if isinstance(wl[0].test, ast.Name) else None
-        tcfg = CFG(tr.body, exceptions=False)
+        # the statements of the try's else-branch run right after a body that completed: they belong to the normal path
+        tcfg = CFG(list(tr.body) + list(tr.orelse), exceptions=False)
         okf = True
         for p, _ in tcfg.paths():
             term = tcfg.nodes[p[-1][0]].info
